@@ -64,8 +64,9 @@ def S(t, v):
     return Sample(F.ts(t), None if v is None else Quantity(float(v)))
 
 
-def run_case(prim, fall, order, close_at, two_terms=False):
-    """prim/fall: per-timestamp values ('v' valid, None, 'nan'); order: 'pf' or 'fp' per run."""
+def run_case(prim, fall, order, close_at, lag=0):
+    """prim/fall: per-timestamp values ('v' valid, None, 'nan'); order: 'pf' or 'fp' per run; lag: the formula's own
+    inputs (primary and the other term) are delivered `lag` steps behind the live fallback stream."""
     L = len(prim)
     with virtual_loop() as loop:
         SENT_LOG[0] = []
@@ -83,16 +84,20 @@ def run_case(prim, fall, order, close_at, two_terms=False):
         fb_seen_from = None
         stalled = False
         try:
-            for t in range(L):
+            for step in range(L + lag):
+                t = step - lag  # timestamp of the primary / other samples delivered in this step
                 evs = []
-                if close_at is not None and t == close_at:
-                    evs.append(("close",))
-                elif close_at is None or t < close_at:
-                    evs.append(("p", prim[t]))
-                evs.append(("f", fall[t]))
+                if 0 <= t < L:
+                    if close_at is not None and t == close_at:
+                        evs.append(("close",))
+                    elif close_at is None or t < close_at:
+                        evs.append(("p", prim[t]))
+                # the fallback components keep streaming (valid samples) while the lagging inputs catch up
+                evs.append(("f", fall[step] if step < L else "v"))
                 if order == "fp":
                     evs.reverse()
-                evs.append(("o",))
+                if 0 <= t < L:
+                    evs.append(("o",))
                 for e in evs:
                     if e[0] == "close":
                         loop.create_task(pc.close())
@@ -101,8 +106,8 @@ def run_case(prim, fall, order, close_at, two_terms=False):
                         F.push(ps, S(t, 1.0 + t if v == "v" else (None if v is None else math.nan)))
                     elif e[0] == "f":
                         if fb.is_running and fb_seen_from is None:
-                            fb_seen_from = t
-                        F.push(fs, S(t, 100.0 + t if e[1] == "v" else None))
+                            fb_seen_from = step
+                        F.push(fs, S(step, 100.0 + step if e[1] == "v" else None))
                     else:
                         F.push(os_, S(t, OTHER))
                     SENT_LOG[0].append(e)
@@ -116,7 +121,7 @@ def run_case(prim, fall, order, close_at, two_terms=False):
     return out, fb_seen_from, stalled, unhandled
 
 
-def oracle(prim, fall, order, close_at, out, fb_seen_from):
+def oracle(prim, fall, order, close_at, out, fb_seen_from, lag=0):
     """Expected output per timestamp, with the start-up window the property allows."""
     L = len(prim)
     v = []
@@ -137,7 +142,7 @@ def oracle(prim, fall, order, close_at, out, fb_seen_from):
     t0 = next((t for t in range(L) if not prim_valid(t)), None)
     # bounded start-up: the fallback is started while the first failing timestamp is processed, so it
     # sees the fallback stream's sample of the following timestamp at the latest
-    if t0 is not None and t0 + 1 < L and (fb_seen_from is None or fb_seen_from > t0 + 1):
+    if t0 is not None and t0 + 1 + lag < L and (fb_seen_from is None or fb_seen_from > t0 + 1 + lag):
         v.append(("fallback_started_at_first_failure", {"first_failing_timestamp": t0, "fallback_first_seen_for": fb_seen_from, "outputs": out}))
         return v
     for t in range(L):
@@ -166,9 +171,9 @@ def oracle(prim, fall, order, close_at, out, fb_seen_from):
     return v
 
 
-def check_case(prim, fall, order, close_at):
-    out, fb_from, stalled, unhandled = run_case(prim, fall, order, close_at)
-    v = oracle(prim, fall, order, close_at, out, fb_from)
+def check_case(prim, fall, order, close_at, lag=0):
+    out, fb_from, stalled, unhandled = run_case(prim, fall, order, close_at, lag)
+    v = oracle(prim, fall, order, close_at, out, fb_from, lag)
     if stalled:
         v.append(("execution_terminates", {}))
     return out, v
@@ -329,8 +334,11 @@ def shard(args) -> Acc:
         for fall in itertools.product(["v", None], repeat=L):
             for order in ("pf", "fp"):
                 closes = [None] + list(range(1, L)) if all(x == "v" for x in prim[2:]) or tier != "quick" else [None]
-                for close_at in closes:
-                    out, viol = check_case(prim, list(fall), order, close_at)
+                cases = [(c, 0) for c in closes]
+                if "nan" not in prim:
+                    cases += [(None, 1), (None, 2)]  # the formula's inputs lag behind the live fallback stream
+                for close_at, lag in cases:
+                    out, viol = check_case(prim, list(fall), order, close_at, lag)
                     acc.evaluations += 1
                     acc.traces += 1
                     acc.transitions += 3 * L
@@ -339,11 +347,11 @@ def shard(args) -> Acc:
                     if any(x != "v" for x in prim) or close_at is not None:
                         acc.nontrivial += 1
                     acc.outcome(f"outputs={len(out)} close={'yes' if close_at is not None else 'no'}")
-                    acc.state(repr((prim, fall, order, close_at)))
+                    acc.state(repr((prim, fall, order, close_at, lag)))
                     if acc.evaluations % 1500 == 1:
                         acc.sample({"primary": prim, "fallback": list(fall), "order": order, "primary_closed_at": close_at, "outputs": out})
                     for clause, detail in viol:
-                        acc.violation(Violation(clause, {"primary": prim, "fallback": list(fall), "order": order, "close_at": close_at},
+                        acc.violation(Violation(clause, {"primary": prim, "fallback": list(fall), "order": order, "close_at": close_at, "lag": lag},
                                                 detail, classes(prim, fall, order, close_at)))
     return acc
 
@@ -355,7 +363,7 @@ def run(tier: str, seed: int, workers: int):
     meta = {
         "rule": "formula p + o, p with a lazily started fallback; L = 5 (quick) / 6 timestamps; primary per timestamp valid / None / NaN "
         "(all 3^L sequences), fallback per timestamp valid / None (all 2^L), fallback sample sent before or after the primary's, "
-        "primary stream closed at every position; non-trivial = some primary sample invalid or the stream closed; plus the generated "
+        "primary stream closed at every position, and the formula's own inputs delivered 0, 1 or 2 steps behind the live fallback stream; non-trivial = some primary sample invalid or the stream closed; plus the generated "
         "PV formula of a PV meter with two inverters (real FallbackFormulaMetricFetcher and registry): all 2^L meter sequences x "
         "inverter-missing pattern x order x close position",
         "assumptions": [
@@ -374,5 +382,5 @@ def replay(case: dict):
     if case.get("driver") == "generated":
         out, _, _ = run_generated(case["primary"], case["inverter_b"], case["order"], case["close_at"])
         return oracle_generated(case["primary"], case["inverter_b"], case["order"], case["close_at"], out)
-    _, v = check_case(case["primary"], case["fallback"], case["order"], case["close_at"])
+    _, v = check_case(case["primary"], case["fallback"], case["order"], case["close_at"], case.get("lag", 0))
     return v
